@@ -336,8 +336,11 @@ def map(
             zmin + 0.5 * zspacing, zmax - 0.5 * zspacing, resolution["z"]
         )
     else:
+        # A single sample at zero depth. The depth step is only used by the kernel to
+        # locate that sample relative to each cell and has to be strictly positive (with
+        # an automatic window, zmax is the upper extent of the data and can be negative)
         zmin = 0.0
-        zspacing = zmax - zmin
+        zspacing = abs(zmax - zmin) or 1.0
         zcenters = [0.0]
 
     xg, yg, zg = np.meshgrid(xcenters, ycenters, zcenters, indexing="ij")
